@@ -250,6 +250,8 @@ def po1(facts, rep):
                 elif eng_po.orphan_match(k, AUDIT, present_short):
                     k0 = eng_po.orphan_match(k, AUDIT, present_short)
                     rep.audited(rule, k, o['where'], 'arithmetic of the removed function %s, now written in its caller: %s' % (k0.split('|')[0], AUDIT[k0]))
+                elif eng_po.implied(k, AUDIT, o):
+                    rep.audited(rule, k, o['where'], eng_po.implied(k, AUDIT, o)[1])
                 else:
                     rep.bad(rule, k, o['where'], 'undischarged %s obligation: %s' % (o['kind'], o['detail']))
     rep.floor(rule, 'matcher bodies analysed', nbodies, 15)
